@@ -27,7 +27,10 @@ RAISER_TABLE = [
     ("attribute/method/subscript use of a maybe-None value (mapping.get(k) without default, re.match, urlsplit().hostname/.port) "
      "with no dominating truthiness/None test", "AttributeError"),
     ("advancing a local generator after g.close() on the same path", "StopIteration (RuntimeError inside a generator, PEP 479)"),
+    ("mapping[key] = v / {key: v} / set.add(key) where key is a bytearray slice of a receive buffer (unhashable)", "TypeError"),
 ]
+BA_METHODS = {"strip", "lstrip", "rstrip", "lower", "upper", "title", "replace", "partition", "rpartition", "split", "rsplit",
+              "splitlines", "copy", "join", "ljust", "rjust", "center", "removeprefix", "removesuffix", "expandtabs"}
 NOT_IN_TABLE = ["constant-index access seq[0]", "arithmetic", "attribute access on non-None values", "calls that cannot be resolved"]
 
 SANITIZERS = {"int", "float", "len", "abs", "bool", "ord", "round", "isinstance", "hasattr", "type", "id", "callable", "hash", "min", "max"}
@@ -66,11 +69,15 @@ class Escape:
         self.tainted_attrs = {}      # class fq -> set(attr)
         self.tainted_params = {}     # func fq -> set(param names)
         self.tainted_returns = set() # func fq whose return/yield value is tainted
+        self.ba_returns = set()      # func fq returning / yielding bytearray slices of a receive buffer
+        self.ba_params = {}          # func fq -> params bound to such values
+        self.ba_seeds = set()        # (class fq, attr) / (None, param) that are receive bytearrays
         self.unresolved = {}
         self.visited = set()
         self.calls_resolved = 0
         self.calls_total = 0
         self._localcache = {}
+        self._ba = {}
         self.changed = False
 
     # ----------------------------------------------------------- typing aids
@@ -298,7 +305,77 @@ class Escape:
                 if f.fq not in self.tainted_returns:
                     self.tainted_returns.add(f.fq)
                     self.changed = True
+        self._ba[(f.fq, recv.fq if recv else None)] = self._bytearrays(f, recv, types)
         return tainted, is_t
+
+    def _bytearrays(self, f, recv, types):
+        """Names (and an is_ba predicate) holding bytearray slices of a receive buffer."""
+        ba = set(self.ba_params.get(f.fq, ()))
+        for p in f.params()[0] + f.params()[1]:
+            if (None, p) in self.ba_seeds:
+                ba.add(p)
+
+        def seed_attr(o, attr):
+            return o is not None and any((k.fq, attr) in self.ba_seeds for k in o.mro)
+
+        def is_ba(e):
+            if isinstance(e, ast.Name):
+                return e.id in ba
+            if isinstance(e, ast.Attribute):
+                if dotted(e.value) == "self":
+                    return seed_attr(recv, e.attr)
+                return any(seed_attr(o, e.attr) for o in self.ix.expr_classes(f, recv, e.value, types))
+            if isinstance(e, ast.Subscript):
+                return isinstance(e.slice, ast.Slice) and is_ba(e.value)
+            if isinstance(e, ast.BinOp) and isinstance(e.op, ast.Add):
+                return is_ba(e.left) or is_ba(e.right)
+            if isinstance(e, ast.Call):
+                name = dotted(e.func)
+                if name == "bytearray":
+                    return True
+                if name == "next" and e.args or (isinstance(e.func, ast.Attribute) and e.func.attr == "send"):
+                    tgt = e.args[0] if name == "next" else e.func.value
+                    return any(g.fq in self.ba_returns for g, r in self.gens_of(f, recv, tgt))
+                if isinstance(e.func, ast.Attribute) and e.func.attr in BA_METHODS and is_ba(e.func.value):
+                    return True
+                callees = self.ix.resolve_call(f, recv, e, types)
+                if callees:
+                    return any(g is not None and g.fq in self.ba_returns and g.name != "__init__" for g, r in callees)
+            return False
+
+        changed = True
+        while changed:
+            changed = False
+            for n in walk_local(f.node):
+                tg, val = [], None
+                if isinstance(n, ast.Assign):
+                    tg, val = n.targets, n.value
+                elif isinstance(n, (ast.For, ast.comprehension)):
+                    tg, val = [n.target], n.iter
+                if val is None or not is_ba(val):
+                    continue
+                for t in tg:
+                    for nm in ([t] if isinstance(t, ast.Name) else (t.elts if isinstance(t, (ast.Tuple, ast.List)) else [])):
+                        if isinstance(nm, ast.Name) and nm.id not in ba:
+                            ba.add(nm.id)
+                            changed = True
+        # must-semantics: a name rebound from anything that is not a bytearray slice (e.g. x = x.decode()) is dropped
+        dropped = True
+        while dropped:
+            dropped = False
+            for n in walk_local(f.node):
+                if isinstance(n, ast.Assign) and not is_ba(n.value):
+                    for t in n.targets:
+                        for nm in ([t] if isinstance(t, ast.Name) else (t.elts if isinstance(t, (ast.Tuple, ast.List)) else [])):
+                            if isinstance(nm, ast.Name) and nm.id in ba:
+                                ba.discard(nm.id)
+                                dropped = True
+        for n in walk_local(f.node):
+            if isinstance(n, (ast.Return, ast.Yield)) and n.value is not None and is_ba(n.value):
+                if f.fq not in self.ba_returns:
+                    self.ba_returns.add(f.fq)
+                    self.changed = True
+        return ba, is_ba
 
     def _taint_attr(self, recv, attr):
         s = self.tainted_attrs.setdefault(recv.fq, set())
@@ -478,6 +555,20 @@ class Escape:
                     and not (isinstance(n.slice, ast.UnaryOp) and isinstance(n.slice.operand, ast.Constant)):
                 if is_t(n.slice) and self._is_mapping(f, recv, n.value) and not self._membership_guarded(f, n):
                     add("KeyError", n, True, unparse(n))
+        # unhashable bytearray keys
+        ba, is_ba = self._ba.get((f.fq, recv.fq if recv else None), (set(), lambda e: False))
+        for n in walk_local(f.node):
+            key = None
+            if isinstance(n, ast.Subscript) and isinstance(n.ctx, ast.Store) and not isinstance(n.slice, ast.Slice):
+                key = n.slice
+            elif isinstance(n, ast.Dict):
+                for kx in n.keys:
+                    if kx is not None and is_ba(kx):
+                        key = kx
+            elif isinstance(n, ast.Call) and isinstance(n.func, ast.Attribute) and n.func.attr == "add" and n.args:
+                key = n.args[0]
+            if key is not None and is_ba(key):
+                add("TypeError", n, True, "%s with unhashable bytearray key %s" % (unparse(n), unparse(key)))
         # maybe-None dereferences
         for node, what in self._maybe_none_derefs(f, recv, is_t):
             add("AttributeError", node, True, what)
@@ -566,6 +657,18 @@ class Escape:
         names, kwonly, vararg, kwarg = g.params()
         if g.cls is not None and names and names[0] in ("self", "cls"):
             names = names[1:]
+        ba, is_ba = self._ba.get((f.fq, None), (None, None)) if False else (None, None)
+        for key, val in self._ba.items():
+            if key[0] == f.fq:
+                ba, is_ba = val
+        if is_ba is not None:
+            bp = self.ba_params.setdefault(g.fq, set())
+            pairs = [(names[i], a) for i, a in enumerate(call.args) if i < len(names) and not isinstance(a, ast.Starred)]
+            pairs += [(k.arg, k.value) for k in call.keywords if k.arg and k.arg in names + kwonly]
+            for pname, arg in pairs:
+                if is_ba(arg) and pname not in bp:
+                    bp.add(pname)
+                    self.changed = True
         tp = self.tainted_params.setdefault(g.fq, set())
         for i, a in enumerate(call.args):
             if isinstance(a, ast.Starred):
